@@ -81,6 +81,11 @@ func verif_C17_trip() {
 		}
 	}
 	s, _ := verifServer(be)
+	if which == 3 && nondetBool() {
+		// the message is also over the size limit; the backend read on
+		// regardless and fails for its own reason: its error is the reply
+		s.MaxMessageBytes = 2
+	}
 	in := "EHLO c\r\nMAIL FROM:<a@v>\r\nRCPT TO:<b@v>\r\nDATA\r\nx\r\n.\r\n"
 	vc, _, _ := verifServe(s, []byte(in), io.EOF)
 	reps, wf := verifParseReplies(vc.out)
